@@ -104,9 +104,19 @@ def read_obligations(pid):
                 if not line:
                     continue
                 if line.startswith("import "):
-                    imports.append(line[7:].strip())
+                    if line[7:].strip() not in imports:
+                        imports.append(line[7:].strip())
+                elif line.startswith("use "):
+                    i2, n2 = rd(os.path.join(LEAN, "obligations", "equiv", line[4:].strip() + ".txt"))
+                    for x in i2:
+                        if x not in imports:
+                            imports.append(x)
+                    for x in n2:
+                        if x not in names:
+                            names.append(x)
                 else:
-                    names.append(line)
+                    if line not in names:
+                        names.append(line)
         return imports, names
     imports, names = rd(os.path.join(LEAN, "obligations", pid + ".txt"))
     ximports, xnames = rd(os.path.join(LEAN, "obligations", pid + ".extracted.txt"))
